@@ -561,16 +561,16 @@ func init() {
 			}
 			return nil
 		},
-		"pedersencom.Commitment": nonNilField("v"),
-		"pedersencom.Witness":    nonNilField("r"),
-		"pedersencom.Message":    nonNilField("m"),
-		"indcpacom.Commitment":   nonNilField("c"),
-		"indcpacom.Witness":      nonNilField("s"),
-		"indcpacom.Message":      nonNilField("m"),
+		"pedersencom.Commitment":  nonNilField("v"),
+		"pedersencom.Witness":     nonNilField("r"),
+		"pedersencom.Message":     nonNilField("m"),
+		"indcpacom.Commitment":    nonNilField("c"),
+		"indcpacom.Witness":       nonNilField("s"),
+		"indcpacom.Message":       nonNilField("m"),
 		"indcpacom.CommitmentKey": nonNilField("encryptionKey"),
-		"intcom.Commitment":      nonNilField("v"),
-		"intcom.Witness":         nonNilField("r"),
-		"intcom.Message":         nonNilField("m"),
+		"intcom.Commitment":       nonNilField("v"),
+		"intcom.Witness":          nonNilField("r"),
+		"intcom.Message":          nonNilField("m"),
 		// encryption/paillier: NewPublicKey / NewSecretKey (group not nil), ciphertext / nonce / plaintext components not nil
 		"paillier.PublicKey":  nonNilField("group"),
 		"paillier.Ciphertext": nonNilField("c"),
@@ -648,15 +648,15 @@ func init() {
 		"maurer09.Witness":    nonNilField("W"),
 		"maurer09.State":      nonNilField("S"),
 		// curves: every decoded point is on its curve; the prime-subgroup types are in the subgroup
-		"k256.Point":                       pointRule(refcurve.K256(), "sec1", false),
-		"p256.Point":                       pointRule(refcurve.P256(), "sec1", false),
-		"pasta.PallasPoint":                pointRule(refcurve.PallasMina(), "pasta", false),
-		"pasta.VestaPoint":                 pointRule(refcurve.VestaMina(), "pasta", false),
-		"edwards25519.Point":               pointRule(refcurve.Ed25519(), "ed", false),
-		"edwards25519.PrimeSubGroupPoint":  pointRule(refcurve.Ed25519(), "ed", true),
-		"bls12381.PointG1":                 pointRule(refcurve.BLS12381G1(), "zcash", true),
-		"bls12381.PointG2":                 pointRule(refcurve.BLS12381G2(), "zcash", true),
-		"curve25519.PrimeSubGroupPoint":    libTorsionRule,
+		"k256.Point":                      pointRule(refcurve.K256(), "sec1", false),
+		"p256.Point":                      pointRule(refcurve.P256(), "sec1", false),
+		"pasta.PallasPoint":               pointRule(refcurve.PallasMina(), "pasta", false),
+		"pasta.VestaPoint":                pointRule(refcurve.VestaMina(), "pasta", false),
+		"edwards25519.Point":              pointRule(refcurve.Ed25519(), "ed", false),
+		"edwards25519.PrimeSubGroupPoint": pointRule(refcurve.Ed25519(), "ed", true),
+		"bls12381.PointG1":                pointRule(refcurve.BLS12381G1(), "zcash", true),
+		"bls12381.PointG2":                pointRule(refcurve.BLS12381G2(), "zcash", true),
+		"curve25519.PrimeSubGroupPoint":   libTorsionRule,
 	}
 }
 
